@@ -115,6 +115,8 @@ func (s codecSpec) String() string {
 		return fmt.Sprintf("dl:%s:%d:%d", hex.EncodeToString(s.delim), s.max, b2i(s.stripDelim))
 	case "fx":
 		return fmt.Sprintf("fx:%d", s.n)
+	case "vl":
+		return fmt.Sprintf("vl:%d", s.max)
 	}
 	return "?"
 }
@@ -145,6 +147,8 @@ func (s codecSpec) build() (in netty.InboundHandler, out netty.OutboundHandler, 
 		c = frame.DelimiterCodec(s.max, string(s.delim), s.stripDelim)
 	case "fx":
 		c = frame.FixedLengthCodec(s.n)
+	case "vl":
+		c = frame.VariableLengthCodec(s.max)
 	}
 	return c, c, true
 }
@@ -165,6 +169,27 @@ func isRuntimeFault(r interface{}) bool {
 		return errors.As(e, &re)
 	}
 	return false
+}
+
+// doEncodeHeld runs the encoder on a []byte message and returns what it passed down the pipeline as it is,
+// without reading it: a handler below the codec (or the head handler waiting for the message lock) may hold
+// a frame while the next one is being encoded.
+func doEncodeHeld(out netty.OutboundHandler, owned []byte) (msgs []netty.Message, status string) {
+	defer func() {
+		if r := recover(); r != nil {
+			if isRuntimeFault(r) {
+				status = "fault"
+			} else {
+				status = "raise"
+			}
+		}
+	}()
+	ctx := &fakeCtx{onWrite: func(m netty.Message) { msgs = append(msgs, m) }}
+	out.HandleWrite(ctx, owned)
+	if len(msgs) == 0 {
+		return nil, "raise"
+	}
+	return msgs, "ok"
 }
 
 // encode runs the real encoder; returns bytes, "raise" or "fault".
@@ -224,11 +249,35 @@ func doEncodeOwned(out netty.OutboundHandler, payload []byte, carrier int, owned
 // decodeAll runs the read loop of a default pipeline: HandleRead per iteration with a consumer that
 // drains the frame, until the first exception.
 func doDecode(in netty.InboundHandler, chunks [][]byte, fin error, capIter int) string {
+	return doDecodeFrom(in, chunks, fin, capIter, false)
+}
+
+// asBuffer: the decoder's message is a *bytes.Buffer holding the whole stream (what PacketCodec hands to a frame
+// decoder behind it) instead of a reader over the transport; only meaningful for one chunk ending in io.EOF
+func doDecodeFrom(in netty.InboundHandler, chunks [][]byte, fin error, capIter int, asBuffer bool) string {
 	cp := make([][]byte, len(chunks))
+	total := 0
 	for i := range chunks {
 		cp[i] = append([]byte(nil), chunks[i]...)
+		total += len(chunks[i])
 	}
 	r := &chunkReader{chunks: cp, fin: fin}
+	var src netty.Message = r
+	var buf *bytes.Buffer
+	if asBuffer {
+		var all []byte
+		for _, c := range cp {
+			all = append(all, c...)
+		}
+		buf = bytes.NewBuffer(all)
+		src = buf
+	}
+	consumed := func() int {
+		if buf != nil {
+			return total - buf.Len()
+		}
+		return r.consumed
+	}
 	var sb strings.Builder
 	for it := 0; ; it++ {
 		if it >= capIter {
@@ -251,7 +300,7 @@ func doDecode(in netty.InboundHandler, chunks [][]byte, fin error, capIter int) 
 				fmt.Fprintf(&sb, " m=%s@", hexOrDash(b))
 				delivered++
 			}}
-			in.HandleRead(ctx, r)
+			in.HandleRead(ctx, src)
 			if delivered == 0 {
 				return "nomsg"
 			}
@@ -259,9 +308,9 @@ func doDecode(in netty.InboundHandler, chunks [][]byte, fin error, capIter int) 
 		}()
 		switch status {
 		case "ok":
-			fmt.Fprintf(&sb, "%d", r.consumed)
+			fmt.Fprintf(&sb, "%d", consumed())
 		case "nomsg":
-			fmt.Fprintf(&sb, " nomsg@%d", r.consumed)
+			fmt.Fprintf(&sb, " nomsg@%d", consumed())
 			return strings.TrimSpace(sb.String())
 		default:
 			// an exception may be raised by the consumer after "m=" was not yet written: fine
@@ -269,7 +318,7 @@ func doDecode(in netty.InboundHandler, chunks [][]byte, fin error, capIter int) 
 			if strings.HasSuffix(s, "@") { // message written but offset pending: cannot happen (panic precedes write)
 				sb.WriteString("?")
 			}
-			fmt.Fprintf(&sb, " %s@%d", status, r.consumed)
+			fmt.Fprintf(&sb, " %s@%d", status, consumed())
 			return strings.TrimSpace(sb.String())
 		}
 	}
@@ -350,7 +399,7 @@ func randPayload(rng *rand.Rand, n int) []byte {
 }
 
 func genSpec(rng *rand.Rand) codecSpec {
-	switch rng.Intn(9) {
+	switch rng.Intn(10) {
 	case 0, 1, 2:
 		fl := []int{1, 2, 4, 8}[rng.Intn(4)]
 		s := codecSpec{kind: "lf", big: rng.Intn(2) == 0, fieldLen: fl}
@@ -398,6 +447,11 @@ func genSpec(rng *rand.Rand) codecSpec {
 	case 6, 7:
 		d := [][]byte{[]byte("\n"), []byte("\r\n"), []byte("aa"), []byte("ab"), []byte("aba"), {0}, {0, 1}, []byte("$_$"), []byte("aab"), []byte("==\n"), []byte("--\n"), []byte("abab")}[rng.Intn(12)]
 		return codecSpec{kind: "dl", delim: d, max: []int{1, 2, 3, 8, 64, 300, 4096, 70010}[rng.Intn(8)], stripDelim: rng.Intn(2) == 0}
+	case 8:
+		if rng.Intn(2) == 0 { // no framing: every transport read of at most max bytes is a message
+			return codecSpec{kind: "vl", max: []int{1, 2, 5, 16, 100, 1000, 1024, 1500, 2048, 5000, 0, -3}[rng.Intn(12)]}
+		}
+		fallthrough
 	default:
 		return codecSpec{kind: "fx", n: []int{1, 2, 3, 7, 16, 255, 256, 1024, 0, -1}[rng.Intn(10)]}
 	}
@@ -488,6 +542,35 @@ func runC04(prop string, seed int64, count int) {
 		}
 		if batch {
 			arena = append(arena, bytes.Repeat([]byte{0xEE}, 16)...)[:len(arena)] // spare capacity behind the last record too
+			if rng.Intn(2) == 0 {
+				// corked: every record is encoded before any of the frames is read by whatever is below the codec
+				held := make([][]netty.Message, len(spans))
+				sts := make([]string, len(spans))
+				for i, sp := range spans {
+					held[i], sts[i] = doEncodeHeld(out, arena[sp[0]:sp[1]])
+				}
+				for i := range spans {
+					st := sts[i]
+					var enc []byte
+					if st == "ok" {
+						for _, m := range held[i] {
+							b, err := flattenMsg(m)
+							if err != nil {
+								st = "raise"
+								break
+							}
+							enc = append(enc, b...)
+						}
+					}
+					if st == "ok" {
+						emit("%s enc %s %s %d %s", prop, s, hexOrDash(origs[i]), 0, hexOrDash(enc))
+						stream = append(stream, enc...)
+					} else {
+						emit("%s enc %s %s %d %s", prop, s, hexOrDash(origs[i]), 0, st)
+					}
+				}
+				spans = nil
+			}
 			for i, sp := range spans {
 				enc, st := doEncodeOwned(out, origs[i], 0, arena[sp[0]:sp[1]])
 				if st == "ok" {
@@ -544,7 +627,18 @@ func runC04(prop string, seed int64, count int) {
 		}
 		for _, mode := range modes {
 			chunks := chunkings(rng, stream, mode)
-			outcome := doDecode(in, chunks, ferr, len(stream)+8)
+			if s.kind == "vl" { // a read that returns nothing is delivered as an empty message by design: not generated
+				var ne [][]byte
+				for _, c := range chunks {
+					if len(c) > 0 {
+						ne = append(ne, c)
+					}
+				}
+				chunks = ne
+			}
+			// one chunk ending in EOF: half of the time the decoder gets a *bytes.Buffer (a packet), as behind PacketCodec
+			asBuffer := len(chunks) == 1 && fname == "eof" && rng.Intn(2) == 0
+			outcome := doDecodeFrom(in, chunks, ferr, len(stream)+8, asBuffer)
 			emit("%s dec %s %s %s %s", prop, s, fname, chunksHex(chunks), outcome)
 		}
 	}
